@@ -101,6 +101,10 @@ pub struct Case {
     /// occur at any position; the shell's descriptor for the terminal sits at 10
     #[serde(default)]
     pub interactive: bool,
+    /// (interactive only) `+m`: without job control the shell itself creates
+    /// the pipes of a pipeline and waits for every command of it
+    #[serde(default)]
+    pub no_job_control: bool,
 }
 
 const EXISTING: [&str; 2] = ["e1", "e2"];
@@ -180,6 +184,10 @@ fn gen_redir(rng: &mut Rng, word: &mut u32, as_file: bool) -> Redir {
 pub fn generate(rng: &mut Rng, tier: Tier) -> Case {
     let as_file = rng.bool();
     let interactive = !as_file && rng.below(3) == 0;
+    // (`-i +m`: no job control, the shell does not open the terminal:
+    // descriptor 10 is an ordinary one)
+    let no_job_control = interactive && rng.bool();
+    let own10 = as_file || interactive && !no_job_control;
     let n = rng.range(
         2,
         match tier {
@@ -230,7 +238,7 @@ pub fn generate(rng: &mut Rng, tier: Tier) -> Case {
             Kind::Empty | Kind::Exec => rng.range(1, 3),
             _ => rng.range(0, 4),
         };
-        let mut redirs: Vec<Redir> = (0..nr).map(|_| gen_redir(rng, &mut word, as_file || interactive)).collect();
+        let mut redirs: Vec<Redir> = (0..nr).map(|_| gen_redir(rng, &mut word, own10)).collect();
         if matches!(kind, Kind::Exec | Kind::Eval | Kind::Colon) && !last && !interactive || kind == Kind::ExecCmd {
             // a failing redirection on a special built-in makes the shell exit;
             // keep those for the final command and use benign operands here
@@ -290,7 +298,7 @@ pub fn generate(rng: &mut Rng, tier: Tier) -> Case {
         }
         items.push(Item::Cmd { kind, ops, redirs });
     }
-    Case { items, as_file, interactive }
+    Case { items, as_file, interactive, no_job_control }
 }
 
 // ------------------------------------------------------------------ rendering
@@ -348,6 +356,10 @@ pub fn render(c: &Case) -> String {
                     Kind::Subshell => format!("( io {o} ) {rs}"),
                     Kind::ExecCmd => format!("( trap 'io {o}' EXIT; exec nosuch_cmd {rs} )"),
                     Kind::Eval => format!("eval 'io {o}' {rs}"),
+                    // (interactive programs: the commands run by `command`
+                    // include one the shell has to wait for, so that a SIGINT
+                    // can arrive while the built-in is suspended)
+                    Kind::Command if c.interactive => format!("command eval 'y=$(rc 0); io {o}' {rs}"),
                     Kind::Command => format!("command io {o} {rs}"),
                     Kind::Dot => format!("command . /work/lib{k}.sh {rs}"),
                     Kind::CaseC => format!("case x in x) io {o};; esac {rs}"),
@@ -365,6 +377,9 @@ pub fn render(c: &Case) -> String {
                     }
                     Kind::PipeLast => format!("rc 0 | io {o} {rs}"),
                     Kind::CmdSubst => format!("x{k}=$(io {o} {rs})"),
+                    // (every other one with three stages: the shell then holds
+                    // the reading end of the first pipe while it creates the second)
+                    Kind::PipeFirst if k % 2 == 1 => format!("io {o} {rs} | relay 99 | relay 99"),
                     Kind::PipeFirst => {
                         // here-document bodies follow the whole pipeline line
                         format!("io {o} {rs} | relay 99")
@@ -749,7 +764,7 @@ pub struct Expect {
 }
 
 pub fn expect(c: &Case) -> Expect {
-    let mut m = Model::new(c.as_file || c.interactive);
+    let mut m = Model::new(c.as_file || c.interactive && !c.no_job_control);
     m.interactive = c.interactive;
     let mut cmds = Vec::new();
     for item in &c.items {
@@ -1137,7 +1152,13 @@ fn spec_of(c: &Case) -> ScriptSpec {
         script: render(c),
         dash_c: !c.as_file,
         as_file: c.as_file,
-        options: if c.interactive { vec!["-i".into()] } else { Vec::new() },
+        options: if c.interactive && c.no_job_control {
+            vec!["-i".into(), "+m".into()]
+        } else if c.interactive {
+            vec!["-i".into()]
+        } else {
+            Vec::new()
+        },
         files: {
             let mut files = vec![
                 ("/work/e1".into(), E1.to_vec(), 0o644),
@@ -1150,7 +1171,12 @@ fn spec_of(c: &Case) -> ScriptSpec {
                     if *kind == Kind::Dot {
                         files.push((
                             format!("/work/lib{k}.sh"),
-                            format!("io {}\n", render_ops(ops, &format!("d{k}"))).into_bytes(),
+                            format!(
+                                "{}io {}\n",
+                                if c.interactive { "y=$(rc 0)\n" } else { "" },
+                                render_ops(ops, &format!("d{k}"))
+                            )
+                            .into_bytes(),
                             0o644,
                         ));
                     }
@@ -1169,10 +1195,16 @@ struct Stored {
     nofile: u64,
     /// compare with the model (fault-free run)
     full: bool,
+    /// > 0: SIGINT is sent to the (interactive) main shell at seeded
+    /// scheduler step (permille per step), once
+    #[serde(default)]
+    sigint: u32,
 }
 
 fn run_one(s: &Stored, cfg: &SimConfig, decider: Decider) -> (Observed, Option<Viol>) {
+    let sigint_rate = s.sigint;
     let nofile = s.nofile;
+    let mut sent = 0u32;
     let obs = run_script_with(
         &spec_of(&s.case),
         cfg,
@@ -1190,7 +1222,34 @@ fn run_one(s: &Stored, cfg: &SimConfig, decider: Decider) -> (Observed, Option<V
                     .ok();
             }
         },
-        |_, _| true,
+        |sim: &mut crate::sim::Sim, _step: u64| {
+            if sigint_rate == 0 || sent >= 1 {
+                return true;
+            }
+            if !sim.ctl.decider.borrow_mut().chance(crate::rng::tag::ENV, sigint_rate) {
+                return true;
+            }
+            let alive = sim
+                .state
+                .borrow()
+                .processes
+                .get(&yash_env::job::Pid(2))
+                .is_some_and(|p| p.state() == yash_env::job::ProcessState::Running);
+            if alive {
+                use yash_env::system::SendSignal as _;
+                let sys = yash_env::system::r#virtual::VirtualSystem {
+                    state: std::rc::Rc::clone(&sim.state),
+                    process_id: yash_env::job::Pid(1),
+                };
+                sim.ctl.quiet.set(true);
+                drop(sys.kill(yash_env::job::Pid(2), Some(yash_env::system::r#virtual::SIGINT)));
+                sim.ctl.quiet.set(false);
+                sent += 1;
+                sim.ctl.count("sigint_injected");
+                sim.ctl.record(1, "deliver", 0, 0, "INT");
+            }
+            true
+        },
     );
     let mut v = check_invariants(&s.case, &obs);
     if v.is_none() && s.full {
@@ -1206,12 +1265,45 @@ fn failure(s: &Stored, cfg: &SimConfig, obs: &Observed, v: Viol) -> Failure {
         format!("write #{k} to a regular file fails with ENOSPC")
     } else if s.nofile > 0 {
         format!("RLIMIT_NOFILE soft limit {}", s.nofile)
+    } else if s.sigint > 0 {
+        "SIGINT sent to the interactive shell at seeded steps".into()
     } else {
         "no fault".into()
     };
+    // (SIGINT runs: the key names the kind of command that was being executed
+    // when the signal arrived)
+    let key = if s.sigint > 0 {
+        let kinds: Vec<Kind> = s
+            .case
+            .items
+            .iter()
+            .filter_map(|i| match i {
+                Item::Cmd { kind, .. } => Some(*kind),
+                _ => None,
+            })
+            .collect();
+        let mut last_probe = 0usize;
+        let mut hit: Vec<String> = Vec::new();
+        for e in &obs.history {
+            if e.kind == "iot" && e.pid == 2 {
+                if let Some(k) = e.text.split('|').next().and_then(|l| l.strip_prefix('a')).and_then(|n| n.parse::<usize>().ok()) {
+                    last_probe = k;
+                }
+            } else if e.kind == "deliver" && e.text == "INT" {
+                let name = kinds.get(last_probe).map(|k| format!("{k:?}")).unwrap_or_else(|| "end".into());
+                if !hit.contains(&name) {
+                    hit.push(name);
+                }
+            }
+        }
+        hit.sort();
+        format!("sigint-during-{}:{}", hit.join("+"), v.0)
+    } else {
+        v.1
+    };
     Failure {
         class: v.0,
-        key: v.1,
+        key,
         detail: format!("{} [{fault}]\n--- script ---\n{}", v.2, render(&s.case)),
         case: serde_json::to_value(s).unwrap(),
         cfg: cfg.clone(),
@@ -1230,7 +1322,18 @@ impl Prop for C09 {
         "fault_enumeration"
     }
     fn rule(&self) -> String {
-        "Seeded programs of 2-9 commands; each command is one of 12 kinds (regular built-in, function, brace group, if, for, subshell, eval, command, not-found, redirection-only, exec, `:`; further kinds added later: case, while, function definition with redirections, first and last pipeline stage, command substitution, built-in / function with an assignment prefix, the `.` built-in, and `exec` with a command operand that cannot be executed, observed from the EXIT trap of its subshell, and a command that is not found with a command substitution in its assignment prefix) with 0-4 redirections over all operators (< > >| >> <> <&n >&n <&- >&- here-document), target descriptors 0-10, operands existing/missing/missing-directory//dev/null, sources open/closed/wrong-mode/shell-internal, noclobber toggled. A POSIX redirection-table model (descriptions with shared offsets, append, truncation) is stepped alongside and predicts the table seen by the command, I/O results through the redirected descriptors, the persistent table, statuses and final files. Faults ENUMERATED per program: the fault-free run counts the K descriptor allocations (all processes) and the program is re-run K times failing exactly the k-th allocation with EMFILE; plus runs under RLIMIT_NOFILE soft limits 3..16 and seeded schedules with preemption. Under faults only the non-relaxable invariants are checked (table restored after every non-exec command, no descriptor >= 10 left after exec, >=10 <=> close-on-exec, termination). A run is distinct non-trivial if it fired a fault or had >= 2 processes, keyed by (script hash, fault position/limit, schedule hash). Every position at which a write to a regular file can fail with ENOSPC is enumerated as well (up to 12/40 per program); `:` commands carry pathname expansions. A third of the `-c` programs run in an interactive shell (`-i`): a redirection error on a special built-in does not end it, so failing redirections on `exec`, `eval` and `:` occur at every position of a program, not only at its end.".into()
+        "Seeded programs of 2-9 commands; each command is one of 12 kinds (regular built-in, function, brace group, if, for, subshell, eval, command, not-found, redirection-only, exec, `:`; further kinds added later: case, while, function definition with redirections, first and last pipeline stage, command substitution, built-in / function with an assignment prefix, the `.` built-in, and `exec` with a command operand that cannot be executed, observed from the EXIT trap of its subshell, and a command that is not found with a command substitution in its assignment prefix) with 0-4 redirections over all operators (< > >| >> <> <&n >&n <&- >&- here-document), target descriptors 0-10, operands existing/missing/missing-directory//dev/null, sources open/closed/wrong-mode/shell-internal, noclobber toggled. A POSIX redirection-table model (descriptions with shared offsets, append, truncation) is stepped alongside and predicts the table seen by the command, I/O results through the redirected descriptors, the persistent table, statuses and final files. Faults ENUMERATED per program: the fault-free run counts the K descriptor allocations (all processes) and the program is re-run K times failing exactly the k-th allocation with EMFILE; plus runs under RLIMIT_NOFILE soft limits 3..16 and seeded schedules with preemption. Under faults only the non-relaxable invariants are checked (table restored after every non-exec command, no descriptor >= 10 left after exec, >=10 <=> close-on-exec, termination). A run is distinct non-trivial if it fired a fault or had >= 2 processes, keyed by (script hash, fault position/limit, schedule hash). Every position at which a write to a regular file can fail with ENOSPC is enumerated as well (up to 12/40 per program); `:` commands carry pathname expansions. A third of the `-c` programs run in an interactive shell (`-i`): a redirection error on a special built-in does not end it, so failing redirections on `exec`, `eval` and `:` occur at every position of a program, not only at its end. Interactive programs are also run with one SIGINT sent to the shell at a seeded scheduler step (the command being executed is abandoned, the shell goes on with the next line); in those programs `command` runs `eval 'y=$(rc 0); io ...'` and dot scripts start with a command substitution, so that the signal can arrive while a built-in is suspended. Same never-relaxed invariants.".into()
+    }
+    /// The known finding `sigint-during-command-builtin` covers descriptor
+    /// leaks after a SIGINT that arrived while a `command . FILE` or
+    /// `command eval ...` line (kinds Dot, Command) was being executed - and
+    /// nothing else: a leak after an interrupt of any other kind of command
+    /// has another key.
+    fn matches_known(&self, failure_key: &str, finding_key: &str) -> bool {
+        if finding_key == "sigint-during-command-builtin" {
+            return failure_key.starts_with("sigint-during-Dot:") || failure_key.starts_with("sigint-during-Command:");
+        }
+        failure_key == finding_key
     }
     fn assumptions(&self) -> Vec<String> {
         vec![
@@ -1267,6 +1370,7 @@ impl Prop for C09 {
             case: case.clone(),
             nofile: 0,
             full: true,
+            sigint: 0,
         };
         let cfg0 = SimConfig {
             fail_alloc_pid: None,
@@ -1308,11 +1412,12 @@ impl Prop for C09 {
             case: case.clone(),
             nofile: 0,
             full: false,
+            sigint: 0,
         };
         // (the first two allocations of an interactive shell are its descriptor
         // for the terminal, before the script starts: without it descriptor 10 is
         // an ordinary one and the shell opens the terminal again later)
-        for k in (if case.interactive { 3 } else { 1 })..=k_max {
+        for k in (if case.interactive && !case.no_job_control { 3 } else { 1 })..=k_max {
             let cfg = SimConfig {
                 fail_alloc_at: Some(k),
                 fail_alloc_pid: None,
@@ -1346,6 +1451,37 @@ impl Prop for C09 {
                 return Some(failure(&faulted, &cfg, &obs, v));
             }
         }
+        // an interactive shell interrupted by SIGINT at seeded instants: the
+        // command being executed is abandoned, the shell goes on with the next
+        // line; same never-relaxed invariants
+        if case.interactive {
+            for k in 0..match tier {
+                Tier::Quick => 6u32,
+                Tier::Thorough => 16,
+            } {
+                let cfg = SimConfig {
+                    strategy: if k % 2 == 0 { Strategy::Fifo } else { Strategy::Random },
+                    preempt_permille: if k % 2 == 0 { 0 } else { 100 },
+                    fail_alloc_pid: None,
+                    ..Default::default()
+                };
+                let interrupted = Stored {
+                    case: case.clone(),
+                    nofile: 0,
+                    full: false,
+                    sigint: *rng.pick(&[15u32, 40, 100]),
+                };
+                let (obs, v) = run_one(&interrupted, &cfg, Decider::record(Rng::stream(seed, 970 + k as u64, index)));
+                note(stats, &obs, 2000 + k as u64);
+                stats.count("mode:sigint", 1);
+                if obs.counters.get("sigint_injected").copied().unwrap_or(0) > 0 {
+                    stats.count("reach:sigint-delivered", 1);
+                }
+                if let Some(v) = v {
+                    return Some(failure(&interrupted, &cfg, &obs, v));
+                }
+            }
+        }
         // lowered descriptor limits
         let limits: Vec<u64> = match tier {
             Tier::Quick => vec![3, 10, 11, 12, rng.range(4, 16) as u64],
@@ -1356,6 +1492,7 @@ impl Prop for C09 {
                 case: case.clone(),
                 nofile: l,
                 full: false,
+                sigint: 0,
             };
             let (obs, v) = run_one(&s, &cfg0, Decider::record(Rng::stream(seed, 960, index)));
             note(stats, &obs, 1000 + l);
